@@ -14,6 +14,7 @@ import ZepidVerif.Lemmas.Aipw
 import ZepidVerif.Lemmas.Generalize
 import ZepidVerif.Props.C16
 import ZepidVerif.Lemmas.TmleDR
+import ZepidVerif.Props.C03
 import Mathlib.Algebra.Order.Field.Rat
 import Mathlib.Tactic.NormNum
 set_option linter.unusedSectionVars false
@@ -171,6 +172,19 @@ theorem tmle_dr_outcome (σ lg : F → F) (hσ : StrictMono σ) (l : List (Row F
     rw [gformula_congr l _ (fun r => Q r.s) _ false
       (fun r hr => by simp only [zero_div, sub_zero]; exact hσlg r.s (hS.2 r hr) false)]
     exact gformula_of_outfit l S hS hpos Q hQ _ false
+
+/-- the outcome half over the reals with the model's own `expit` / `logitT` (no hypothesis left about `σ`):
+    initial predictions strictly inside (0,1), as every logistic outcome model (after `bound`) delivers -/
+theorem tmle_dr_outcome_real (l : List (Row ℝ)) (S : List Nat) (hS : Strata l S)
+    (hS0 : S ≠ []) (hpos : Positivity l S) (hw : ∀ r ∈ l, r.w = 1) (Q : Nat → Bool → ℝ) (hQ : OutFit l S Q)
+    (hQ01 : ∀ s ∈ S, ∀ a, 0 < Q s a ∧ Q s a < 1) (g1 g0 : Nat → ℝ) (hg1 : ∀ s, 0 < g1 s) (hg0 : ∀ s, 0 < g0 s)
+    (e1 e2 : ℝ) (h1 : Tmle.eff1 Tmle.expit Tmle.logitT e1 (l.map (toT Q g1 g0)) = 0)
+    (h0 : Tmle.eff0 Tmle.expit Tmle.logitT e2 (l.map (toT Q g1 g0)) = 0) :
+    e1 = 0 ∧ e2 = 0 ∧
+    Tmle.risk1Of (Tmle.targets Tmle.expit Tmle.logitT e1 e2 (l.map (toT Q g1 g0))) = std l S Tgt.pop.mem true ∧
+    Tmle.risk0Of (Tmle.targets Tmle.expit Tmle.logitT e1 e2 (l.map (toT Q g1 g0))) = std l S Tgt.pop.mem false :=
+  tmle_dr_outcome Tmle.expit Tmle.logitT P03.expit_real_strictMono l S hS hS0 hpos hw Q hQ
+    (fun s hs a => P03.expit_logit_real _ (hQ01 s hs a).1 (hQ01 s hs a).2) g1 g0 hg1 hg0 e1 e2 h1 h0
 
 /-- C01's TMLE clause: both nuisance models saturated (a special case of either half) -/
 theorem tmle_saturated (σ lg : F → F) (l : List (Row F)) (S : List Nat) (hS : Strata l S) (hpos : Positivity l S)
